@@ -45,6 +45,8 @@ package fox
 //@   assert-at call (*skippedNodes).pop#1 : backtrack: (tsr ==> n != nil) && (n != nil ==> n.route != nil)
 //@   -- the first trailing-slash candidate found is the most specific one and is kept: the candidate node is
 //@   -- assigned only while there is none, the flag is raised only once
+//@   -- the trailing-slash parameters are exactly the parameters recorded so far, the catch-all value, then the sub-walk's trailing-slash parameters (nothing a previous request left in the buffer)
+//@   assert-at after builtin.append#5 : @C08,C01,C12 tsr-params-fresh: len(call_result) == len(*c.params) + 1 + len(*subCtx.tsrParams)
 //@   assert-at store-local n : @C01,C08 first-candidate: n == nil && new_value != nil
 //@   assert-at store-local tsr : @C01,C08 raised-once: !tsr && new_value
 //@   ensures tsr-node: result1 ==> result0 != nil
@@ -105,6 +107,8 @@ package fox
 //@   assume-at after lookupByPath#1 : sub-walk-frame: stackOK(c, host) && stackMono(c) && hasSkpNds == (len(*c.skipNds) > 0) && !released[box(c)] && (lazy ==> len(*c.params) <= old(len(*c.params)))
 //@   -- a hostname route is entered only when the whole host has been consumed by whole node keys (never a prefix of the host, never a prefix of a label)
 //@   assert-at call lookupByPath#1 : @C09,C01 whole-host: charsMatched == len(host) && charsMatchedInNodeFound == len(current.key) && same(arg_path, path) && arg_lazy == lazy
+//@   -- the trailing-slash parameters are exactly the host parameters recorded so far followed by the path walk's trailing-slash parameters
+//@   assert-at after builtin.append#5 : @C08,C01,C09,C12 tsr-params-fresh: len(call_result) == len(*c.params) + len(*subCtx.tsrParams)
 //@   assert-at store-local n : @C01,C08,C09 first-candidate: n == nil && new_value != nil
 //@   assert-at store-local tsr : @C01,C08,C09 raised-once: !tsr && new_value
 //@   ensures @C16,C01 pool-balance: poolOut[&tree.ctx] == old(poolOut[&tree.ctx])
